@@ -14,6 +14,8 @@ A spec is a JSON list of items
                                                | "index:<arr>" (load) | "sindex:<arr>" = "store_index:<arr>"
                                                (index of a subscript that is assigned to) | "call:<f>#<i>"
    "occurrence": 0,                            which matching statement (default 0)
+   "matches": "min_dist",                      optional regex on the candidate expression's text (ast.unparse);
+                                               `occurrence` then counts among the matching candidates
    "params": [["N","Int"],["max_parts","Int"]],  free names of the expression, with Lean types
    "ret": "Int",                               Lean type of the result
    "rename": {"self.N": "N", "mpi.size": "size"}  optional: dotted names -> parameter
@@ -121,7 +123,7 @@ def dotted(n):
     return None
 
 
-def find_stmt(func, target, occurrence):
+def find_stmt(func, target, occurrence, matches=None):
     hits = []
     for n in ast.walk(func):
         if target == "return" and isinstance(n, ast.Return) and n.value is not None:
@@ -157,6 +159,9 @@ def find_stmt(func, target, occurrence):
             if argi < len(n.args):
                 hits.append((n.lineno, n.args[argi]))
     hits.sort(key=lambda h: h[0])
+    if matches is not None:
+        # keep the candidates whose expression text (ast.unparse) matches the regex
+        hits = [h for h in hits if isinstance(h[1], ast.AST) and re.search(matches, ast.unparse(h[1]))]
     if occurrence >= len(hits):
         raise Untranslatable(f"statement `{target}` #{occurrence} not found "
                              f"({len(hits)} candidates)")
@@ -305,7 +310,7 @@ def translate_item(item, cache):
         cache[path] = (src, parse_pyx(src) if path.endswith(".pyx") else ast.parse(src))
     src, tree = cache[path]
     func = find_func(tree, item["func"])
-    lineno, expr = find_stmt(func, item["target"], item.get("occurrence", 0))
+    lineno, expr = find_stmt(func, item["target"], item.get("occurrence", 0), item.get("matches"))
     part = item.get("part")       # for slices: "lower" | "upper" | "step"; tuples: index
     if part is not None:
         if isinstance(expr, ast.Slice):
